@@ -478,7 +478,7 @@ def choose(ctx, model, size: str) -> list[tuple[object, str]]:
         spec = [s for s in states if "spec-" in s]
         rest = [s for s in states if "spec-" not in s]
         if ctx.thorough:
-            k = len(rest) if size == "small" else 3
+            k = min(len(rest), 4) if size == "small" else 2
         else:
             # the same ~40 skeleton classes occur in every small model: one state per (class, model), taken with p = 0.6
             k = 1 if rng.random() < (0.6 if size == "small" else 0.5) else 0
